@@ -43,7 +43,7 @@ def run(tier, v):
     wd = vlib.workdir(PID)
     vlib.build_harness()
     K = set(vlib.known_devs(PID))
-    fams = ["start", "hdrs", "ows", "cookie", "lang", "many", "dup", "long"]
+    fams = ["start", "hdrs", "ows", "cookie", "lang", "many", "dup", "long", "common"]
     n = n_heads = states = trans = 0
     samples = []
     for fam in fams:
@@ -100,7 +100,7 @@ def run(tier, v):
                     for dv in hit:
                         v.known_hit(dv, WHAT[dv])
                     continue
-                v.violation(dict(ctx, differing_fields=d, expected={k: e["exp"][k] for k in d}, observed={k: got[k] for k in d}, matches_deviations=hit))
+                v.violation(dict(ctx, differing_fields=d, expected={k: e["exp"].get(k, e["exp"].get("text") if k == "sigtext" else None) for k in d}, observed={k: got.get(k) for k in d}, matches_deviations=hit))
             if len(samples) < 3 and n_heads % 151 == 1:
                 samples.append({"head_lines": e["lines"][:6], "p0f_observation": e["exp"]["text"], "bodies": BODY_NAMES})
     return v.finish("model_checking", {
